@@ -15,6 +15,7 @@ import Kap.Proofs.C11Stream
 import Kap.Proofs.C11Defs
 import Kap.Proofs.C11TransLife
 import Kap.Proofs.C11Func
+import Kap.Proofs.C11Order
 namespace Kap.Props.C11
 open Kap.C11 Kap.C11.Spec
 
@@ -167,6 +168,40 @@ example : select .min [⟨5, .int 2, [], []⟩, ⟨3, .int 2, [], []⟩, ⟨1, .
 /-- A selector returns one of the batch's own points (so its time, tags and fields are that point's). -/
 theorem selector_selects_a_point (fn : Fn) (xs : List QP) (p : QP) (h : select fn xs = some p) : p ∈ xs :=
   select_mem fn xs p h
+
+/-! ### Order-independence over an abstract ordered domain
+
+`StrictTotalOn S`: `Val.lt` is irreflexive, transitive and trichotomous on the values `S`. Proved for int64
+values (`int_values_strictly_ordered`); for float64 values it is the IEEE contract (no NaN, one zero), which
+Lean's opaque `Float` cannot show — there the theorems apply under that explicit hypothesis. -/
+
+theorem int_values_strictly_ordered (S : List Val) (h : ∀ v ∈ S, ∃ i, v = .int i) : StrictTotalOn S :=
+  strictTotalOn_int S h
+
+/-- min / max / spread of a batch do not depend on the arrival order of its points, for ANY values on which
+`<` is a strict total order. -/
+theorem min_max_spread_order_independent (cfg : Cfg) (hf : cfg.fn = .spread) (k : Kind) (xs ys : List QP)
+    (hS : StrictTotalOn (xs.map (·.val))) (hne : xs ≠ []) (p : xs.Perm ys) :
+    minVal xs = minVal ys ∧ maxVal xs = maxVal ys ∧ meaning cfg k xs = meaning cfg k ys := by
+  have h1 := minVal_perm_gen xs ys hS hne p
+  have h2 := maxVal_perm_gen xs ys hS hne p
+  exact ⟨h1, h2, by simp [meaning, hf, h1, h2]⟩
+
+/-- … and min is a least, max a greatest element of the batch. -/
+theorem min_is_least_max_is_greatest (xs : List QP) (hS : StrictTotalOn (xs.map (·.val))) (hne : xs ≠ []) :
+    (∃ m, minVal xs = some m ∧ m ∈ xs.map (·.val) ∧ ∀ x ∈ xs, x.val.lt m = false) ∧
+    (∃ m, maxVal xs = some m ∧ m ∈ xs.map (·.val) ∧ ∀ x ∈ xs, m.lt x.val = false) :=
+  ⟨minVal_gen xs hS hne, maxVal_gen xs hS hne⟩
+
+/-- sum does not depend on the arrival order whenever addition commutes on the batch's values (int64: always,
+by wrap-around arithmetic; float64: when no rounding occurs). -/
+theorem sum_order_independent_of_commuting_add (k : Kind) (xs ys : List QP)
+    (hc : ∀ x ∈ xs, ∀ y ∈ xs, ∀ z : Val, (z.add x.val).add y.val = (z.add y.val).add x.val) (p : xs.Perm ys) :
+    sumVals k xs = sumVals k ys :=
+  sumVals_perm_gen k xs ys hc p
+
+example : StrictTotalOn (([⟨1, .int 5, [], []⟩, ⟨2, .int (-3), [], []⟩] : List QP).map (·.val)) :=
+  strictTotalOn_int _ (by intro v hv; simp at hv; rcases hv with rfl | rfl <;> exact ⟨_, rfl⟩)
 
 /-! ### The incremental reducer behind count, sum, min, max, first, last -/
 
